@@ -1,7 +1,8 @@
 /-
 C13 — config upgrade: never panics, an error leaves the file alone, a produced
 document is stamped with the requested version, a current file is left alone,
-top-level settings a step does not concern are preserved.
+the result does not depend on partial runs, settings a step does not concern
+are preserved at every depth.
 
 Property theorems only; helper lemmas are in AGH/Lemmas/Migrate*.lean.  All
 statements quantify over every document, every oracle (library result), every
@@ -9,18 +10,20 @@ current and target version.  `DocLike` is the type guarantee of
 `yaml.Unmarshal(body, &yobj{})`: no document (parse error), a nil map (null
 document) or a map.
 
-Independence from partial runs is proved under the explicit hypothesis that
-re-encoding leaves the intermediate document unchanged
-(`C13_path_independent_partial`); without it the statement is FALSE for documents
-holding an integral float (`C13_counterexample_path_float`, a known finding), and
-for the Go-typed values that steps 12, 20, 28 and 29 leave in the map it is only
-checked by the spec monitor on the implementation's outputs and by the
-model/implementation correspondence (`pathWhy`).  Preservation of unconcerned
-settings is proved for top-level keys (`C13_frame_top`); below the top level it
-is monitored only (`frameWhy`).  The last block holds the obligations over the
-facts regenerated from the Go source on every run.
+Independence from partial runs (`C13_path_independent`) is proved for every
+document that is `ReencodeStable` — a decidable predicate over the shipped
+round-trip oracle that excludes exactly what the known finding is made of (a
+scalar whose re-encoding changes its type, e.g. an integral float; see
+`C13_counterexample_path_float`).  The Go-typed values that steps 12, 20, 28, 29
+leave in the map are handled in the proof (`inv`, `step_inv`, `step_sim`), not
+assumed away.  Preservation (`C13_frame_step`, `C13_frame`, `C13_frame_paths`)
+is unconditional and reaches every depth the steps touch, elements of
+sequences included.  `C13_model_meets_spec` states that the model satisfies the
+whole monitor `specWhy` on `ReencodeStable` cases.  The loader-acceptance clause
+is not formalised.  The last block holds the obligations over the facts
+regenerated from the Go source on every run.
 -/
-import AGH.Lemmas.MigratePath
+import AGH.Lemmas.MigrateFrameRun
 import AGH.Model.MigrateSig
 import AGH.Gen.C13Facts
 namespace AGH.C13
@@ -179,7 +182,7 @@ panics, errors leave the file unchanged, every produced document carries the
 requested stamp, a current file is left alone and a real upgrade fails or produces
 a document.  (The partial-run and the nested preservation clauses of `specWhy` are
 not covered, see the header.) -/
-theorem C13_model_meets_spec (o : Oracles) (c : Case) (hd : DocLike c.parsed) :
+theorem C13_model_meets_spec_core (o : Oracles) (c : Case) (hd : DocLike c.parsed) :
     coreWhy c (modelObs o c) = none := by
   have hpan : firstSome Res.panicWhy (allRes (modelObs o c)) = none := by
     apply firstSome_none
@@ -457,6 +460,128 @@ theorem C13_model_meets_spec_path (o : Oracles) (c : Case) (hd : DocLike c.parse
                   | panic p s => exact absurd hm (hnp p s)
             simp [hall]
 
+/-! ### Settings a step does not concern are preserved, at every depth -/
+
+/-- **Frame of one step**, unconditionally (every document, every oracle): what is read back of
+the result of `migrateTo<n>` differs from what is read back of its input only on the paths
+`touched n` — below the top level too (fields of `dns`, `dhcp`, `querylog`, …, of every element
+of `clients` / `clients.persistent`), and no key appears that the step does not concern. -/
+theorem C13_frame_step (o : Oracles) (n : Nat) (h1 : 1 ≤ n) (h29 : n ≤ 29) (es : List (Key × YVal)) (d : YVal)
+    (h : step o n (.obj es) = .ok d) :
+    frameOK (touched n) (er o (.obj es)) (some (er o d)) = true := by
+  have := step_frame o n h1 h29 es
+  rw [h] at this
+  exact this
+
+/-- **Frame of `upgradeConfigSchema`**: the steps `cur+1 … cur+cnt` together change only what
+one of them concerns. -/
+theorem C13_frame (o : Oracles) (cnt cur : Nat) (h29 : cur + cnt ≤ 29) (es : List (Key × YVal)) (d : YVal)
+    (h : upgrade o cnt cur (.obj es) = .ok d) :
+    frameOK (touchedRange cnt cur) (er o (.obj es)) (some (er o d)) = true :=
+  upgrade_frame o cnt cur h29 es d h
+
+/-- **`path ∉ touched ⇒ get path (step d) = get path d`**: every path of keys that is not on a
+branch with a path the step concerns reads the same before and after the step. -/
+theorem C13_frame_paths (o : Oracles) (n : Nat) (h1 : 1 ≤ n) (h29 : n ≤ 29) (es : List (Key × YVal)) (d : YVal)
+    (h : step o n (.obj es) = .ok d) (ks : List Key)
+    (hd : ∀ q ∈ touched n, onBranch q (ks.map pk) = false) :
+    getKeys (er o d) ks = getKeys (er o (.obj es)) ks :=
+  frameV_getKeys (touched n) _ _ (C13_frame_step o n h1 h29 es d h) ks hd
+
+/-- **Frame as the monitor sees it**: for a `ReencodeStable` file, the document `Migrate`
+produces differs from the decoded input only on the paths the executed steps concern. -/
+theorem C13_frame_observed (o : Oracles) (es : List (Key × YVal)) (target : Nat) (d : YVal)
+    (hst : ReencodeStable o (.obj es) = true) (hf : FmtTotal o) (h : migrate o (some (.obj es)) target = .up d) :
+    ∃ cur, versionOf (.obj es) = some cur ∧
+      frameOK (touchedRange (target - cur) cur) (.obj es) (some d) = true := by
+  obtain ⟨cur, hv, _, _, hfr⟩ := migrate_frame o es target d hst hf h
+  exact ⟨cur, hv, hfr⟩
+
+/-- **The model never raises the monitor's `setting-lost` alarms** outside the known class. -/
+theorem C13_model_meets_spec_frame (o : Oracles) (c : Case) (hd : DocLike c.parsed) (hf : FmtTotal o)
+    (hst : ∀ d, c.parsed = some d → ReencodeStable o d = true) :
+    frameWhy o c (modelObs o c) = none := by
+  unfold frameWhy
+  cases hcv : caseVersion c with
+  | none => rfl
+  | some dc =>
+    obtain ⟨din0, cur⟩ := dc
+    unfold caseVersion at hcv
+    cases hp : c.parsed with
+    | none => simp [hp] at hcv
+    | some d0 =>
+      simp only [hp] at hcv hd
+      cases hv : versionOf d0 with
+      | none => simp [hv] at hcv
+      | some cur' =>
+        simp only [hv] at hcv
+        split at hcv
+        · simp at hcv
+        · rename_i hrange
+          simp at hcv hrange
+          obtain ⟨rfl, rfl⟩ := hcv
+          have hst0 := hst d0 hp
+          have hobj : ∃ es, versionOf (.obj es) = some cur' ∧ ReencodeStable o (.obj es) = true ∧
+              frameInput o d0 = .obj es ∧ ∀ t, migrate o (some d0) t = migrate o (some (.obj es)) t := by
+            cases d0 <;> simp [DocLike] at hd
+            · refine ⟨[], by simpa [versionOf, lookupE] using hv, rfl, ?_, fun t => migrate_null o t⟩
+              simp [frameInput, reparse, reparseEntries]
+            · rename_i es
+              exact ⟨es, hv, hst0, by simp [frameInput, reparse_clean o _ hst0], fun _ => rfl⟩
+          obtain ⟨es, hves, hstes, hin, hmig⟩ := hobj
+          dsimp only
+          by_cases heq : (cur' == c.target) = true
+          · simp [heq]
+          · simp only [heq, Bool.false_eq_true, if_false, hin]
+            have hstep : stepFrameBad c (modelObs o c) cur' (.obj es) = false := by
+              unfold stepFrameBad
+              cases hst' : c.stepTarget with
+              | none => simp [modelObs, modelOutcomes, hst']
+              | some t =>
+                simp only [modelObs, modelOutcomes, hst', hp, hmig, Option.map]
+                cases hm : migrate o (some (.obj es)) t with
+                | up d =>
+                  simp only [Outcome.toRes]
+                  by_cases ht : t = cur' + 1
+                  · obtain ⟨cur, hv2, hlt, h29, hfr⟩ := migrate_frame o es t d hstes hf hm
+                    have : cur = cur' := by rw [hves] at hv2; simpa using hv2.symm
+                    subst this
+                    have h1 : t - cur = 1 := by omega
+                    rw [h1] at hfr
+                    simp only [touchedRange, List.append_nil] at hfr
+                    subst ht
+                    simp [frameOK, hfr]
+                  · simp [ht]
+                | err k s => simp [Outcome.toRes]
+                | same => simp [Outcome.toRes]
+                | panic p s => simp [Outcome.toRes]
+                | oracle => simp [Outcome.toRes]
+            have hone : oneFrameBad c (modelObs o c) cur' (.obj es) = false := by
+              unfold oneFrameBad
+              simp only [modelObs, modelOutcomes, hp, hmig]
+              cases hm : migrate o (some (.obj es)) c.target with
+              | up d =>
+                obtain ⟨cur, hv2, _, _, hfr⟩ := migrate_frame o es c.target d hstes hf hm
+                have : cur = cur' := by rw [hves] at hv2; simpa using hv2.symm
+                subst this
+                simp [Outcome.toRes, frameOK, hfr]
+              | err k s => simp [Outcome.toRes]
+              | same => simp [Outcome.toRes]
+              | panic p s => simp [Outcome.toRes]
+              | oracle => simp [Outcome.toRes]
+            simp [hstep, hone]
+
+/-- **The model satisfies the whole spec**: on every case whose document `yaml.Unmarshal` can
+produce and that is `ReencodeStable` (the known finding excluded), every clause of the monitor
+`specWhy` — no panic, error leaves the file, stamp, no-op, error-or-document, one run or
+partial runs, settings preserved at every depth — holds of the model's own observation.  So an
+alarm of the monitor on behaviour that agrees with the model is impossible outside that class. -/
+theorem C13_model_meets_spec (o : Oracles) (c : Case) (hd : DocLike c.parsed) (hf : FmtTotal o)
+    (hst : ∀ d, c.parsed = some d → ReencodeStable o d = true) :
+    specOK o c (modelObs o c) = true := by
+  simp [specOK, specWhy, C13_model_meets_spec_core o c hd, C13_model_meets_spec_path o c hd hf hst,
+    C13_model_meets_spec_frame o c hd hf hst]
+
 /-! ### The partial-run clause fails on an integral float -/
 
 /-- Oracles of the witness: `86400.0` is written back as `86400`. -/
@@ -555,6 +680,46 @@ example : ∃ d, migrate floatOracles (some (.obj [(kSchemaVersion, .int 28), (k
 
 /-- A current file: `C13_current_noop` applies. -/
 example : migrate floatOracles (some (.obj [(kSchemaVersion, .int 29)])) 29 = .same := rfl
+
+/-- Oracles under which every non-generic scalar is read back as itself. -/
+def idOracles : Oracles :=
+  { fmtDays := fun n => some [100, 48 + n.toNat % 10], fmtHours := fun _ => some [104], addrOK := fun _ => some true,
+    addrPort := fun _ _ => some [49], quic := fun s => some s, ufPattern := [47, 42],
+    rt := fun k p => some (.opaque k p) }
+
+/-- A version-11 file with a float and a timestamp among its settings: it goes through the steps
+that leave Go-typed values in the map (12, 20, 28, 29) and the one that moves one (15). -/
+def doc11 : YVal :=
+  .obj [(kSchemaVersion, .int 11),
+    (kDns, .obj [(kQuerylogInterval, .int 7), (kAllServers, .bool true), (kUpstreamDns, .arr [.str [97]]),
+      ([120], .opaque 1 [49, 46, 53])]),
+    (kStatistics, .obj [(kInterval, .int 2)]),
+    (kFilters, .arr [.obj [(kUrl, .str [47, 97])]]),
+    (kFiltering, .obj []),
+    ([121], .opaque 3 [50])]
+
+/-- `ReencodeStable` holds of a concrete non-trivial document, `FmtTotal` of concrete oracles … -/
+example : ReencodeStable idOracles doc11 = true ∧ FmtTotal idOracles ∧ versionOf doc11 = some 11 :=
+  ⟨by decide, fun _ => rfl, by decide⟩
+
+/-- … the upgrade of that document succeeds, with a Duration moved to `querylog.interval` and
+written back as a string, … -/
+example : (match migrate idOracles (some doc11) 29 with
+    | .up d => getKeys d [kQuerylog, kInterval] == some (.str [100, 55]) &&
+        getKeys d [kDns, kUpstreamMode] == some (.str sParallel)
+    | _ => false) = true := by decide +kernel
+
+/-- … and `C13_path_independent` applies to it at a split point after the first typed value is created. -/
+example : (splitRun idOracles (some doc11) 29 13).2 = migrate idOracles (some doc11) 29 :=
+  C13_path_independent idOracles _ 11 13 29 (by decide) (by decide) (by decide) (by decide) (by decide)
+    (fun _ => rfl)
+
+/-- `C13_frame_paths` has content: step 12 concerns `dns.querylog_interval`; the float next to it and
+the timestamp at the top level read the same afterwards. -/
+example : (match step idOracles 12 doc11 with
+    | .ok d => getKeys (er idOracles d) [kDns, [120]] == some (.opaque 1 [49, 46, 53])
+    | _ => false) = true ∧
+    (∀ q ∈ touched 12, onBranch q ([kDns, [120]].map pk) = false) := ⟨by decide +kernel, by decide⟩
 
 /-- The hypotheses of `C13_path_independent_partial` hold for a real run (version 1 to 3, then on to 5). -/
 example : versionOf (.obj [(kSchemaVersion, .int 1), (kOs, .int 5)]) = some 1 ∧
